@@ -58,3 +58,132 @@ theorem keyIn_symm (m : Mode) (ks : List String) (a b : List (String × String))
     subst this; exact hv'
 
 end Pynenc.C07
+
+namespace Pynenc.C07
+open Pynenc Pynenc.CC
+
+/-! ### the census invariant -/
+
+/-- what sequential use maintains for one task with registration concurrency `tc.regMode` -/
+structure CensusInv (tc : TaskConf) (task : String) (o : Orch) : Prop where
+  infoNodup : o.info.NodupKeys
+  recsNodup : o.recs.NodupKeys
+  /-- the argument index holds exactly the arguments of every invocation of the task -/
+  rows : ∀ id inf, (id, inf) ∈ o.info → inf.task = task → ∀ k v, (id, k, v) ∈ o.argIdx ↔ (k, v) ∈ inf.args
+  /-- index rows only for recorded invocations -/
+  rowsKnown : ∀ id k v, (id, k, v) ∈ o.argIdx → ∃ inf, (id, inf) ∈ o.info
+  /-- all calls of the task bind the same parameter names -/
+  shape : ∀ i j infi infj, (i, infi) ∈ o.info → (j, infj) ∈ o.info → infi.task = task → infj.task = task →
+    SameShape infi.args infj.args
+  /-- THE CENSUS: no two REGISTERED invocations of the task have matching registration keys
+      (for mode TASK the key is empty: at most one REGISTERED invocation of the task) -/
+  uniq : ∀ i j infi infj, i ≠ j → (i, infi) ∈ o.info → (j, infj) ∈ o.info → infi.task = task → infj.task = task →
+    o.statusOf i = some .registered → o.statusOf j = some .registered →
+    ¬ keyIn tc.regMode tc.keyArgs infi.args infj.args
+
+private theorem matchesKey_iff (o : Orch) (id : String) (key : List (String × String)) :
+    o.matchesKey id key = true ↔ ∀ kv ∈ key, (id, kv.1, kv.2) ∈ o.argIdx := by
+  unfold Orch.matchesKey
+  simp [List.all_eq_true, List.contains_iff_mem]
+
+/-- `existing` returns nothing iff no recorded invocation of the task passes both filters -/
+private theorem existing_nil (o : Orch) (task : String) (key : List (String × String)) (sts : List Status)
+    (h : (o.existing task key sts).head? = none) :
+    ∀ id inf, (id, inf) ∈ o.info → inf.task = task →
+      (sts.isEmpty = true ∨ ∃ s, o.statusOf id = some s ∧ s ∈ sts) →
+      ¬ (key.isEmpty = true ∨ o.matchesKey id key = true) := by
+  intro id inf hm ht hst hk
+  have hnil : o.existing task key sts = [] := by
+    cases hl : o.existing task key sts with
+    | nil => rfl
+    | cons a l => rw [hl] at h; simp at h
+  unfold Orch.existing at hnil
+  have hf := List.map_eq_nil_iff.1 hnil
+  have hnot := (List.filter_eq_nil_iff.1 hf) (id, inf) hm
+  apply hnot
+  simp only [Bool.and_eq_true, decide_eq_true_eq, Bool.or_eq_true]
+  refine ⟨⟨ht, hk⟩, ?_⟩
+  rcases hst with h1 | ⟨s, hs, hmem⟩
+  · left; exact h1
+  · right; simp [hs, hmem]
+
+private theorem set_absent {β : Type} (m : AMap String β) (k : String) (v : β) (h : m.has k = false) :
+    m.set k v = m ++ [(k, v)] := by
+  induction m with
+  | nil => rfl
+  | cons p rest ih =>
+    obtain ⟨k', v'⟩ := p
+    by_cases hk : k' = k
+    · subst hk; simp [AMap.has, AMap.get?] at h
+    · have : AMap.has rest k = false := by simpa [AMap.has, AMap.get?, hk] using h
+      simp [AMap.set, hk, ih this]
+
+private theorem has_false_not_mem {β : Type} (m : AMap String β) (k : String) (h : m.has k = false) (v : β) : (k, v) ∉ m := by
+  intro hm
+  induction m with
+  | nil => simp at hm
+  | cons p rest ih =>
+    obtain ⟨k', v'⟩ := p
+    by_cases hk : k' = k
+    · subst hk; simp [AMap.has, AMap.get?] at h
+    · have hr : AMap.has rest k = false := by simpa [AMap.has, AMap.get?, hk] using h
+      rcases List.mem_cons.1 hm with e | e
+      · injection e with e1; exact hk e1.symm
+      · exact ih hr e
+
+private theorem nodup_append_absent {β : Type} (m : AMap String β) (k : String) (v : β) (hn : m.NodupKeys) (h : m.has k = false) :
+    AMap.NodupKeys (m ++ [(k, v)]) := by
+  have := AMap.nodupKeys_set m hn k v
+  rwa [set_absent m k v h] at this
+
+private theorem get?_append_absent {β : Type} (m : AMap String β) (k : String) (v : β) (h : m.has k = false) :
+    AMap.get? (m ++ [(k, v)]) k = some v := by
+  have := AMap.get?_set_self m k v
+  rwa [set_absent m k v h] at this
+
+/-- the state after `_route_new_call_invocation` of a fresh id, spelled out -/
+private theorem newInvocation_shape (s : Sys) (tc : TaskConf) (f task call : String) (args : List (String × String))
+    (rid : Option String) (now : Int) (hreg : tc.regMode ≠ .disabled)
+    (hf1 : s.orch.recs.has f = false) (hf2 : s.orch.info.has f = false)
+    (hrows : ∀ k v, (f, k, v) ∉ s.orch.argIdx) :
+    (newInvocation s tc f task call args rid now).orch.info = s.orch.info ++ [(f, { task := task, call := call, args := args })] ∧
+    (newInvocation s tc f task call args rid now).orch.recs = s.orch.recs ++ [(f, { status := .registered, owner := rid, ts := now })] ∧
+    (∀ id k v, (id, k, v) ∈ (newInvocation s tc f task call args rid now).orch.argIdx ↔
+        (id, k, v) ∈ s.orch.argIdx ∨ (id = f ∧ (k, v) ∈ args)) := by
+  have hinfo : (s.orch.registerInv f { task := task, call := call, args := args } rid now).info
+      = s.orch.info ++ [(f, { task := task, call := call, args := args })] := by
+    simp [Orch.registerInv, Orch.register, hf1, set_absent _ _ _ hf2]
+  have hrecs : (s.orch.registerInv f { task := task, call := call, args := args } rid now).recs
+      = s.orch.recs ++ [(f, { status := .registered, owner := rid, ts := now })] := by
+    simp [Orch.registerInv, Orch.register, hf1, set_absent _ _ _ hf1]
+  have hidx : (s.orch.registerInv f { task := task, call := call, args := args } rid now).argIdx = s.orch.argIdx := by
+    simp [Orch.registerInv, Orch.register, hf1]
+  have hget : (s.orch.registerInv f { task := task, call := call, args := args } rid now).info.get? f
+      = some { task := task, call := call, args := args } := by
+    rw [hinfo]; exact get?_append_absent _ _ _ hf2
+  have hcond : (tc.regMode ≠ .disabled ∨ tc.runMode ≠ .disabled) := Or.inl hreg
+  unfold newInvocation
+  simp only [hcond, if_true]
+  unfold Orch.indexArgs
+  simp only [hget]
+  refine ⟨hinfo, hrecs, ?_⟩
+  intro id k v
+  simp only [hidx, List.mem_append, List.mem_map, List.mem_filter]
+  constructor
+  · rintro (⟨hm, _⟩ | ⟨⟨k', v'⟩, hkv, heq⟩)
+    · left; exact hm
+    · right
+      injection heq with h1 h2
+      injection h2 with h2 h3
+      subst h1; subst h2; subst h3
+      exact ⟨rfl, hkv⟩
+  · rintro (hm | ⟨hid, hkv⟩)
+    · left
+      refine ⟨hm, ?_⟩
+      have hne : id ≠ f := by intro e; subst e; exact hrows k v hm
+      simp only [Bool.not_eq_true', List.any_eq_false, List.mem_map]
+      rintro r ⟨⟨k', v'⟩, _, rfl⟩
+      simp [Ne.symm hne]
+    · right; subst hid; exact ⟨(k, v), hkv, rfl⟩
+
+end Pynenc.C07
